@@ -16,9 +16,9 @@ open PyGql PyGql.Coerce
 
 namespace StandIn
 
-/-- `f(a: Any!, box: Box, d: Any = "dflt")`, python name of `a` is `a_py` -/
+/-- `f(a: Any!, box: Box, d: Any = "dflt")`, as `build_schema` registers it (python names = names) -/
 def argDefs : List InField :=
-  [ { name := "a", pyName := "a_py", type := .nonNull (.named "Any"), default := none },
+  [ { name := "a", pyName := "a", type := .nonNull (.named "Any"), default := none },
     { name := "box", pyName := "box", type := .named "Box", default := none },
     { name := "d", pyName := "d", type := .named "Any", default := some (.str "dflt") } ]
 
@@ -79,7 +79,7 @@ def sels : List SelT := [SelT.mk "k" "f" args []]
 
 /-- what the resolver of `k` receives for `{"v": {"x": 1}}` -/
 def kwargs : List (String × PV) :=
-  [("a_py", .list [.dict [("x", .int 1)], .str "1"]),
+  [("a", .list [.dict [("x", .int 1)], .str "1"]),
    ("box", .dict [("any", .str "dflt"), ("must", .dict [("x", .int 1)]), ("n", .int 3)]),
    ("d", .str "dflt")]
 
@@ -137,7 +137,7 @@ theorem variables_sound_applies_with_default_scalar :
 /-- `arguments_sound` applies: `f(a: [$v, 1], box: {must: $v})` with `$v = 3`; the omitted `d: Any = "dflt"` gets its default -/
 theorem arguments_sound_applies_with_default_scalar :
     ConformsFields StandIn.reg argDefs
-      [("a_py", .list [.int 3, .str "1"]), ("box", .dict [("any", .str "dflt"), ("must", .int 3), ("n", .int 3)]), ("d", .str "dflt")] :=
+      [("a", .list [.int 3, .str "1"]), ("box", .dict [("any", .str "dflt"), ("must", .int 3), ("n", .int 3)]), ("d", .str "dflt")] :=
   arguments_sound regOK_satisfiable_with_default_scalar 6 [("v", .int 3)] args argDefs _ argsOK args_varsFit (by rfl)
 
 /-- `validated_arguments_sound` applies (variables coerced by the model, usages as the validator accepts them) -/
